@@ -95,21 +95,35 @@ def imageFor (cfg : Config) (s : State) (p : Peer) (f : Fetch) : Replica :=
 /-- occupied slots of a fetcher table, in slot order -/
 def keys (tbl : List (Option FetchKey)) : List FetchKey := tbl.filterMap id
 
-structure Inv (cfg : Config) (s : State) : Prop where
-  connNodup : (s.peers.map (·.conn)).Nodup
+/-- the element side: owners, unique paths, every element is in the path index -/
+structure ElemsOK (s : State) : Prop where
   owner : ∀ p ∈ s.peers, ∀ e ∈ p.elements, e.owner = p.conn
   pathNodup : ∀ p ∈ s.peers, (p.elements.map (·.path)).Nodup
   idxNodup : (s.index.map (·.1)).Nodup
   indexed : ∀ p ∈ s.peers, ∀ e ∈ p.elements, (e.path, p.conn) ∈ s.index
+
+/-- the fetch side: connections are distinct, fetch uids are unique and below the counter, fetch
+    ids are strings or numbers and pairwise different (as `idsEqual` compares) inside one peer -/
+structure FetchesOK (s : State) : Prop where
+  connNodup : (s.peers.map (·.conn)).Nodup
   uidLt : ∀ p ∈ s.peers, ∀ f ∈ p.fetches, f.uid < s.nextUid
   uidNodup : ∀ p ∈ s.peers, (p.fetches.map (·.uid)).Nodup
   fidOk : ∀ p ∈ s.peers, ∀ f ∈ p.fetches, idsEqual f.fid f.fid = true
   fidDistinct : ∀ p ∈ s.peers, p.fetches.Pairwise (fun a b => idsEqual a.fid b.fid = false)
-  tblNodup : ∀ e ∈ allElems s, (keys e.fetchers).Nodup
-  tblLive : ∀ e ∈ allElems s, ∀ fk ∈ keys e.fetchers,
-    ∃ p ∈ s.peers, p.conn = fk.peer ∧ ∃ f ∈ p.fetches, f.uid = fk.uid
-  tblChar : ∀ p ∈ s.peers, ∀ f ∈ p.fetches, ∀ e ∈ allElems s,
-    (⟨p.conn, f.uid⟩ ∈ keys e.fetchers ↔ visible cfg p.fetchGroups f.rule e = true)
+
+/-- the fetcher table of element `e` is right with respect to the peers `ps`: no key twice, every
+    key is a live peer's existing fetch, and a live fetch is in the table exactly when the element
+    is visible to its peer and matches its rule -/
+structure TblOK (cfg : Config) (ps : List Peer) (e : Element) : Prop where
+  nodup : (keys e.fetchers).Nodup
+  live : ∀ fk ∈ keys e.fetchers, ∃ p ∈ ps, p.conn = fk.peer ∧ ∃ f ∈ p.fetches, f.uid = fk.uid
+  char : ∀ p ∈ ps, ∀ f ∈ p.fetches,
+    ((⟨p.conn, f.uid⟩ : FetchKey) ∈ keys e.fetchers ↔ visible cfg p.fetchGroups f.rule e = true)
+
+structure Inv (cfg : Config) (s : State) : Prop where
+  elems : ElemsOK s
+  fetches : FetchesOK s
+  tbl : ∀ e ∈ allElems s, TblOK cfg s.peers e
 
 /-! ## atomic pieces of daemon work
 
@@ -142,6 +156,10 @@ inductive Exec (cfg : Config) : State → List (List Obs) → State → Prop
 /-- peer `c` of state `s` has the fetch `f` -/
 def HasFetch (s : State) (c : Nat) (f : Fetch) : Prop :=
   ∃ p ∈ s.peers, p.conn = c ∧ f ∈ p.fetches
+
+/-- peer `c` of state `s` has fetch groups `pg` and the fetch `f` -/
+def Alive (s : State) (c pg : Nat) (f : Fetch) : Prop :=
+  ∃ p ∈ s.peers, p.conn = c ∧ p.fetchGroups = pg ∧ f ∈ p.fetches
 
 /-- peer `c` of state `s` has some fetch whose id equals `fid` -/
 def HasFid (s : State) (c : Nat) (fid : Json) : Prop :=
